@@ -71,6 +71,30 @@ def pshufb(a, m):
     return out
 
 
+def _sat_pack(x, w_in, w_out, signed_out):
+    """saturating narrowing of a signed w_in-bit lane to w_out bits (PACKSS* / PACKUS*)"""
+    sign = T.bit(x, w_in - 1)
+    lo = T.extract(x, 0, w_out)
+    if signed_out:
+        hi = T.extract(x, w_out - 1, w_in - w_out + 1)
+        fits = T.bor(T.eqz(hi), T.eqz(T.bnot(hi)))
+        return T.ite(fits, lo, T.ite(sign, T.const(1 << (w_out - 1), w_out), T.const((1 << (w_out - 1)) - 1, w_out)))
+    over = T.bxor(T.eqz(T.extract(x, w_out, w_in - w_out - 1)), T.const(1, 1))
+    return T.ite(sign, T.const(0, w_out), T.ite(over, T.const((1 << w_out) - 1, w_out), lo))
+
+
+_X86_PACK = {'llvm.x86.sse2.packsswb.128': (16, True), 'llvm.x86.sse2.packssdw.128': (32, True), 'llvm.x86.sse41.packusdw': (32, False),
+             'llvm.x86.avx2.packsswb': (16, True), 'llvm.x86.avx2.packssdw': (32, True), 'llvm.x86.avx2.packuswb': (16, False), 'llvm.x86.avx2.packusdw': (32, False)}
+_X86_SHIFT = {}
+for _isa, _suf in (('sse2', ''), ('avx2', '')):
+    for _k, _kn in (('l', 'psll'), ('r', 'psrl'), ('a', 'psra')):
+        for _w, _wn in ((16, 'w'), (32, 'd'), (64, 'q')):
+            if _k == 'a' and _w == 64:
+                continue
+            _X86_SHIFT['llvm.x86.%s.%s.%s' % (_isa, _kn, _wn)] = (_k, _w, False)
+            _X86_SHIFT['llvm.x86.%s.%si.%s' % (_isa, _kn, _wn)] = (_k, _w, True)
+
+
 def call(ex, name, args):
     if name.startswith('llvm.lifetime') or name.startswith('llvm.experimental.noalias') or name.startswith('llvm.dbg') \
             or name == 'llvm.x86.avx.vzeroupper' or name.startswith('llvm.prefetch') or name == 'llvm.x86.sse2.pause':
@@ -224,6 +248,77 @@ def call(ex, name, args):
     if name in ('llvm.x86.sse2.pmovmskb.128', 'llvm.x86.avx2.pmovmskb'):
         a = args[0]
         return T.zext(T.concat([T.bit(x, 7) for x in a]), 32)
-    if name in ('llvm.x86.sse2.psad.bw', ):
-        raise Unsupported(name)
+    m_ = _X86_PACK.get(name)
+    if m_ is not None:
+        w_in, signed_out = m_
+        a, b = args
+        # 256-bit forms pack within each 128-bit lane
+        per = 128 // w_in
+        out = []
+        for base in range(0, len(a), per):
+            for src in (a, b):
+                out += [_sat_pack(x, w_in, w_in // 2, signed_out) for x in src[base:base + per]]
+        return out
+    m_ = _X86_SHIFT.get(name)
+    if m_ is not None:
+        kind, w, imm = m_
+        a, cnt = args
+        if imm:
+            c = T.zext(cnt, 64) if T.width(cnt) < 64 else cnt
+        else:
+            c = T.extract(T.concat(cnt), 0, 64)       # low 64 bits of the count vector
+        if not T.is_const(c):
+            raise Unsupported(name + ' with symbolic count')
+        k = T.cval(c)
+        out = []
+        for x in a:
+            if kind == 'l':
+                out.append(T.shl(x, k) if k < w else T.const(0, w))
+            elif kind == 'r':
+                out.append(T.lshr(x, k) if k < w else T.const(0, w))
+            else:
+                out.append(T.ashr(x, min(k, w - 1)))
+        return out
+    if name in ('llvm.x86.sse2.pmadd.wd', 'llvm.x86.avx2.pmadd.wd'):
+        a, b = args
+        out = []
+        for i in range(0, len(a), 2):
+            out.append(T.add(T.mul(T.sext(a[i], 32), T.sext(b[i], 32)), T.mul(T.sext(a[i + 1], 32), T.sext(b[i + 1], 32))))
+        return out
+    if name in ('llvm.x86.sse2.pmulh.w', 'llvm.x86.avx2.pmulh.w', 'llvm.x86.sse2.pmulhu.w', 'llvm.x86.avx2.pmulhu.w'):
+        ext = T.zext if 'pmulhu' in name else T.sext
+        return [T.extract(T.mul(ext(x, 32), ext(y, 32)), 16, 16) for x, y in zip(*args)]
+    if name in ('llvm.x86.sse2.psad.bw', 'llvm.x86.avx2.psad.bw'):
+        a, b = args
+        out = []
+        for base in range(0, len(a), 8):
+            acc = T.const(0, 64)
+            for x, y in zip(a[base:base + 8], b[base:base + 8]):
+                d = T.ite(T.ult(x, y), T.sub(y, x), T.sub(x, y))
+                acc = T.add(acc, T.zext(d, 64))
+            out.append(acc)
+        return out
+    for pre_, w_ in (('psign.b', 8), ('psign.w', 16), ('psign.d', 32)):
+        if name in ('llvm.x86.ssse3.' + pre_ + '.128', 'llvm.x86.avx2.' + pre_):
+            return [T.ite(T.bit(y, w_ - 1), T.neg(x), T.ite(T.eqz(y), T.const(0, w_), x)) for x, y in zip(*args)]
+    for pre_, w_, op_ in (('phadd.w', 16, T.add), ('phadd.d', 32, T.add), ('phsub.w', 16, T.sub), ('phsub.d', 32, T.sub)):
+        if name in ('llvm.x86.ssse3.' + pre_ + '.128', 'llvm.x86.avx2.' + pre_):
+            a, b = args
+            per = 128 // w_
+            out = []
+            for base in range(0, len(a), per):
+                for src in (a, b):
+                    out += [op_(src[base + i], src[base + i + 1]) for i in range(0, per, 2)]
+            return out
+    if name in ('llvm.x86.avx2.permd', 'llvm.x86.avx2.permps'):
+        a, idx = args
+        out = []
+        for ix in idx:
+            if not T.is_const(ix):
+                raise Unsupported(name + ' with symbolic index')
+            out.append(a[T.cval(ix) & 7])
+        return out
+    if name in ('llvm.x86.aesni.aesenc', 'llvm.x86.aesni.aesdec', 'llvm.x86.aesni.aesdeclast', 'llvm.x86.aesni.aesimc', 'llvm.x86.aesni.aeskeygenassist',
+                'llvm.x86.pclmulqdq'):
+        raise Unsupported('intrinsic ' + name + ' (only AESENCLAST is modelled: the repository uses no other AES-NI instruction)')
     raise Unsupported('intrinsic ' + name)
